@@ -21,6 +21,7 @@ structure LexSt where
   psr : Bool := false         -- possible_search_root
   afterOpen : Bool := false
   afterWhere : Bool := false
+  afterBy : Bool := false
   afterOperator : Bool := false
   deriving Repr
 
@@ -31,12 +32,12 @@ def LexSt.measure (st : LexSt) : Nat :=
   (st.parts.map (fun p => p.length + 2)).sum + (if st.synth then 1 else 0)
 
 def LexSt.isOpChar (st : LexSt) (c : Char) : Bool :=
-  if !st.beforeFrom && !st.afterWhere then false else opChars.contains c
+  if !st.beforeFrom && !st.afterWhere && !st.afterBy then false else opChars.contains c
 
 def LexSt.isArithChar (st : LexSt) (c : Char) : Bool :=
-  if arithCharsAlways.contains c then st.beforeFrom || st.afterWhere
+  if arithCharsAlways.contains c then st.beforeFrom || st.afterWhere || st.afterBy
   else if arithCharsGuarded.contains c then
-    (st.beforeFrom || st.afterWhere) && !st.afterOpen && !st.afterOperator
+    (st.beforeFrom || st.afterWhere || st.afterBy) && !st.afterOpen && !st.afterOperator
   else false
 
 def isParenChar (c : Char) : Bool := c == '(' || c == ')' || c == '{' || c == '}'
@@ -179,13 +180,13 @@ def nextLexem (st : LexSt) : Option Lexem × LexSt :=
   | .undefined => (none, { st1 with psr := false, afterOperator := false })
   | .raw =>
     match keywordOf s with
-    | some .kwFrom => fin .from_ { st1 with beforeFrom := false, afterWhere := false }
+    | some .kwFrom => fin .from_ { st1 with beforeFrom := false, afterWhere := false, afterBy := false }
     | some .kwWhere => fin .where_ { st1 with afterWhere := true }
     | some .kwOr => fin .or_ st1
     | some .kwAnd => fin .and_ st1
     | some .kwNot_afterWhere => if st1.afterWhere then fin .not_ st1 else fin (.raw s) st1
     | some .kwOrder => fin .order st1
-    | some .kwBy => fin .by_ st1
+    | some .kwBy => fin .by_ { st1 with afterBy := true }
     | some .kwskip => if st1.measure < st.measure then nextLexem st1
                       else (none, st1)
     | some .kwDescendingOrder => fin .desc st1
